@@ -218,6 +218,27 @@ type wsClient struct {
 	dead  bool
 	// set for the pre-init probe: the silent message there is the no-op that follows the init
 	noCloseWait bool
+	primedFor   int // case number the connection was last primed for
+}
+
+// Connections are reused.  So that state leaking from one operation of a connection into the next
+// (a decoded payload, a feature set, a subscription table) shows inside a single case, and
+// therefore replays, every case first runs a primer operation with distinctive variables and
+// operation name on each connection it uses.
+const primerPayload = `{"query":"query Primer($i: Int, $leak: Boolean) { primer: echoInt(x: $i) l: echoBool(x: $leak) }","variables":{"i":41,"leak":true},"operationName":"Primer"}`
+
+const primerSubscription = `{"query":"subscription PrimerSub { ticks(n: 1) }"}`
+
+func (c *wsClient) prime(caseNo int) {
+	if c.primedFor == caseNo || c.dead {
+		return
+	}
+	c.primedFor = caseNo
+	id := fmt.Sprintf("primer-%d", caseNo)
+	sub := primerSubscription
+	c.exchange(frameText("itp", startType(c.proto), id+"-sub", &sub), id+"-sub", id+"-sub-s", true)
+	pl := primerPayload
+	c.exchange(frameText("itp", startType(c.proto), id, &pl), id, id+"-s", false)
 }
 
 type wsMsg struct {
@@ -402,13 +423,17 @@ func (s *server) wsConn(proto string, feat bool) *wsClient {
 	return c
 }
 
-func (s *server) serveWS(e wsEnv, feat bool, async bool) (o apiObs) {
-	s.rec.take()
+func (s *server) serveWS(e wsEnv, feat bool, async bool, caseNo int) (o apiObs) {
 	var r wsResult
 	if e.PreInit {
+		s.rec.take()
 		r = preInitExchange(s.ts.URL, e.Proto, feat, e.Raw, e.ID)
 	} else {
-		r = s.wsConn(e.Proto, feat).exchange(e.Raw, e.ID, e.ID+"-s", async)
+		s.wsConn(e.Proto, feat).prime(caseNo)
+		c := s.wsConn(e.Proto, feat)
+		c.primedFor = caseNo
+		s.rec.take()
+		r = c.exchange(e.Raw, e.ID, e.ID+"-s", async)
 	}
 	o.Resolvers, o.Hooks = s.rec.take()
 	o.Kind, o.Code, o.Completed = r.Kind, r.Code, r.Completed
@@ -489,7 +514,7 @@ func newDecoderServer() *decoderServer {
 	return d
 }
 
-func (d *decoderServer) decodeWS(e wsEnv) sexp.Node {
+func (d *decoderServer) decodeWS(e wsEnv, caseNo int) sexp.Node {
 	var r wsResult
 	if e.PreInit {
 		r = preInitExchange(d.ts.URL, e.Proto, false, e.Raw, e.ID)
@@ -502,6 +527,9 @@ func (d *decoderServer) decodeWS(e wsEnv) sexp.Node {
 			c = dialWS(d.ts.URL, e.Proto, false, true)
 			d.conns[e.Proto] = c
 		}
+		c.prime(caseNo)
+		d.store.Delete(fmt.Sprintf("primer-%d", caseNo))
+		d.store.Delete(fmt.Sprintf("primer-%d-sub", caseNo))
 		r = c.exchange(e.Raw, e.ID, e.ID+"-s", false)
 	}
 	switch r.Kind {
